@@ -29,6 +29,9 @@ import OxiddModel.NnfParse.Driver
 import OxiddModel.DimacsParse.Driver
 import OxiddModel.Zbdd.DriverRc
 import OxiddModel.Bcdd.DriverC04S
+import OxiddModel.Reorder.DriverHashed
+import OxiddModel.Tdd.DriverRc
+import OxiddModel.Num.DriverF64Count
 
 open OxiddModel
 
@@ -75,7 +78,10 @@ def protos : List (String × Proto) := [
   ("zbdd-rc", OxiddModel.Zbdd.DriverRc.proto),
   ("bcdd-c04s", OxiddModel.Bcdd.DriverC04S.proto),
   ("bcdd-c04s-1", OxiddModel.Bcdd.DriverC04S.proto1),
-  ("bcdd-c04s-4", OxiddModel.Bcdd.DriverC04S.proto4)
+  ("bcdd-c04s-4", OxiddModel.Bcdd.DriverC04S.proto4),
+  ("reorder-hashed", OxiddModel.Reorder.SwapHashed.Driver.proto),
+  ("tdd-rc", OxiddModel.Tdd.DriverRc.proto),
+  ("f64count", OxiddModel.Num.F64C.Driver.proto)
 ]
 
 def main (args : List String) : IO UInt32 := do
